@@ -212,12 +212,29 @@ func (p *Program) cheap(fn *ssa.Function) bool {
 	return p.cheapSize(fn, 0) >= 0
 }
 
+// cheapLimit: ordinary helpers are entered when tiny; loop-free functions that return an error or a
+// boolean are potential guards (canWrite, canRead, Validate …) — skipping one makes every invalid path
+// behind it look feasible — so they get a much larger budget.
+func cheapLimit(fn *ssa.Function) int {
+	res := fn.Signature.Results()
+	if res.Len() > 0 {
+		last := res.At(res.Len() - 1).Type()
+		if errorLike(last) {
+			return 2000
+		}
+		if b, ok := last.Underlying().(*types.Basic); ok && b.Info()&types.IsBoolean != 0 {
+			return 2000
+		}
+	}
+	return 200
+}
+
 // cheapSize returns the total instruction count or -1 if not cheap.
 func (p *Program) cheapSize(fn *ssa.Function, depth int) int {
 	if v, ok := p.cheapMemo[fn]; ok {
 		return v
 	}
-	if len(fn.Blocks) == 0 || depth > 6 {
+	if len(fn.Blocks) == 0 || depth > 10 {
 		return -1
 	}
 	p.cheapMemo[fn] = -1 // recursion guard
@@ -257,7 +274,7 @@ func (p *Program) cheapSize(fn *ssa.Function, depth int) int {
 			}
 		}
 	}
-	if total > 200 {
+	if total > cheapLimit(fn) {
 		return -1
 	}
 	p.cheapMemo[fn] = total
